@@ -340,7 +340,7 @@ impl<R: Rng + ?Sized> Random<R> {
 				len += 1;
 			}
 			else {
-				let k = self.index(i + 1 + amount);
+				let k = self.index(i + 1);
 				if let Some(slot) = buf.get_mut(k) {
 					*slot = elem;
 				}
